@@ -296,6 +296,37 @@ def run(chk, facts):
             chk.ob("R-C11-3", f"{fn['qual']}|{what}|{kind}:{info or ''}|{_nth(occs, occ, i)}", ok,
                    f"in {fn['qual']}: {desc}" + ("" if ok else " - an annotation read back from the Core tree influences more than the annotation text"), loc)
     chk.floor("R-C11-3", n_cons, 4, "uses of a `ty` field read from a Core node")
+
+    # ---------------- R-C11-4 (where annotations may appear) ----------------
+    chk.rule("R-C11-4", "variable and parameter annotations are emitted only where Python has syntax for them: the guard of every such "
+                        "annotation implies `state.annotate && state.expand_ty` (lambda parameters, with-aliases, tuple targets switch expand_ty off); "
+                        "lambda parameters are converted with expand_ty(false)")
+    from .common import bool_formula, implies
+    try:
+        cd = syn.one_fn("convert_def", mod="generate::convert::definition")
+        loc = facts.loc_of(cd)
+        guards = [n for n in walk(cd["body"]) if n.get("k") == "local" and [p["name"] for p in walk(n["pat"]) if p.get("k") == "pident"] == ["annotate"] and n.get("init") is not None]
+        for i, g in enumerate(guards):
+            f, atoms = bool_formula(g["init"])
+            ok, cex = implies(f, atoms, ["state.annotate", "state.expand_ty"])
+            chk.ob("R-C11-4", f"convert_def|guard{i}", ok,
+                   f"annotation guard `{src(g['init'])[:90]}` implies annotate && expand_ty" if ok else
+                   f"annotation guard `{src(g['init'])[:110]}` can hold with {[(a, v) for a, v in cex.items() if a in ('state.annotate', 'state.expand_ty')]}: "
+                   "an annotation is emitted in a position where Python has no syntax for one (e.g. a lambda parameter), so the annotate=on output is not the same program", loc)
+        chk.floor("R-C11-4", len(guards), 2, "annotation guards in convert_def")
+        cn = syn.one_fn("convert_node", mod="generate::convert")
+        from .c08 import _arm
+        arm = _arm(cn, "NodeTy::AnonFun")
+        ok = False
+        for n in walk(arm["body"]):
+            if n.get("k") == "struct" and n["p"] == "Core::AnonFun":
+                for fname, fv in n["fields"]:
+                    if fname == "args":
+                        ok = "state.expand_ty(false)" in src(fv).replace(" ", "")
+        chk.ob("R-C11-4", "AnonFun-args-expand_ty(false)", ok, "lambda parameters are converted with expand_ty(false)" if ok else
+               "lambda parameters are no longer converted with expand_ty(false): they get annotations Python cannot parse", facts.loc_of(cn))
+    except AnchorError as e:
+        chk.anchor_fail("R-C11-4", e)
     chk.assume("the typing imports registered by type rendering (`to_py(imp)`) are allowed to differ between the two settings (the property says so)")
     chk.notes.append("C11: taint of the annotate flag over all functions of generate::, who-may-read over the whole crate (MIR).")
 
